@@ -308,64 +308,74 @@ def gates(ctx, R):
     # ... or tested where it is looked up (`if arg["extension_values"].get(v):`)
     direct = [fc for fc in cfgv.facts() if isinstance(fact_atom(fc)[0], ast.Call) and call_name(fact_atom(fc)[0]) == "get"
               and "extension_values" in norm(fact_atom(fc)[0].func)]
+    _e4_structural = True
     if not evars and not direct:
-        raise AnalysisError("E4", "value helper: lookup in extension_values not recognised")
-
-    def ext_found(fc):
-        e, pol = fact_atom(fc)
-        if isinstance(e, ast.Name) and e.id in evars and pol is True:
-            return True
-        if isinstance(e, ast.Call) and call_name(e) == "get" and "extension_values" in norm(e.func) and pol is True:
-            return True
-        cp = cmp_parts(e)
-        if cp and cp[1] in ("In", "NotIn") and (norm(cp[2]) in evars or "extension_values" in norm(cp[2])) and not isinstance(cp[0], ast.Constant):
-            return (cp[1] == "In") == pol
-        return False
-
-    def gate4(fc):
-        e, pol = fact_atom(fc)
-        if isinstance(e, ast.Name) and (e.id in cev or e.id in switches):
-            return pol is False
-        if isinstance(e, ast.Name) and e.id in evars:
-            return pol is False  # no extension found for the value after all: nothing to gate on this edge
-        if registry_test(e, pol) == "loaded":
-            return True
-        return False
-
-    vev = value_gate_eval(ctx, R, vv, cev, switches)
-    if vev is not None and vev[0] == "bad":
-        ctx.violation("E4", vv, "model:value-gate", vev[1], node=vv.node,
-                      witness="`if header :REGEX \"a\" \"b\" {...}` without `require \"regex\"` is accepted (or a loaded one refused)")
-    elif vev is not None:
-        ctx.holds("E4", "%s: %d (slot definition, tag spelling, flag, registry) cases answer as the definition says (extension-bound values in any "
-                  "letter case need their extension unless the caller's flag is off)" % (vv.qualname, vev[1]))
-    _prev_e4 = ctx.demote(["E4"], "the evaluation of the value helper (E4)", keep_keys=("model:", "value-gate-flag")) \
-        if vev is not None and vev[0] == "ok" else None
-    k = 0
-    for r in walk_no_nested(vv.node):
-        if isinstance(r, ast.Return) and r.value is not None and const_value(ctx.program, vv, r.value) is not False:
-            for nd in cfgv.nodes_for(r):
-                if not cfgv.guarded(nd, ext_found):
-                    continue  # plain `values` branch
-                k += 1
-                if cfgv.guarded(nd, gate4):
-                    ctx.holds("E4", "%s: extension-bound value accepted only when loaded" % vv.qualname)
-                else:
-                    ctx.violation("E4", vv, "value-gate", "an extension-bound tag value is accepted without the registry test", node=r,
-                                  witness="`if header :regex \"a\" \"b\" {...}` without `require \"regex\"` is accepted")
-    ctx.need("E4", "extension-value accept paths", k, 1)
-    if _prev_e4 is not None:
-        ctx.restore(_prev_e4)
-    calls = [c for c in walk_no_nested(cna.node) if isinstance(c, ast.Call) and isinstance(c.func, ast.Attribute)
-             and c.func.attr == vv.name]
-    ctx.need("E4", "calls of the value helper", len(calls), 2)
-    for c in calls:
-        a = bound_arg(c, vv, cev[0]) if cev else None
-        if isinstance(a, ast.Name) and a.id in ce:
-            ctx.holds("E4", "%s passes %s" % (norm(c)[:60], a.id))
+        from .geval import arg_eval as _ae
+        _a = _ae(ctx, R)
+        if _a is not None and _a[0] == "ok":
+            # the value gate is not written as a lookup in extension_values inside this helper; the evaluation G11 followed the
+            # argument interpreter (value helper included) over extension-bound values with the extension loaded / not loaded
+            ctx.notice("E4", "value helper: lookup in extension_values not recognised; the value gate is decided by the evaluation G11")
+            _e4_structural = False
         else:
-            ctx.violation("E4", cna, "value-gate-flag:%s" % (norm(a) if a is not None else "default"), "the value helper is called with "
-                          "check_extension=%s instead of the caller's flag" % (norm(a) if a is not None else "<default>"), node=c)
+            raise AnalysisError("E4", "value helper: lookup in extension_values not recognised")
+    if _e4_structural:
+
+        def ext_found(fc):
+            e, pol = fact_atom(fc)
+            if isinstance(e, ast.Name) and e.id in evars and pol is True:
+                return True
+            if isinstance(e, ast.Call) and call_name(e) == "get" and "extension_values" in norm(e.func) and pol is True:
+                return True
+            cp = cmp_parts(e)
+            if cp and cp[1] in ("In", "NotIn") and (norm(cp[2]) in evars or "extension_values" in norm(cp[2])) and not isinstance(cp[0], ast.Constant):
+                return (cp[1] == "In") == pol
+            return False
+
+        def gate4(fc):
+            e, pol = fact_atom(fc)
+            if isinstance(e, ast.Name) and (e.id in cev or e.id in switches):
+                return pol is False
+            if isinstance(e, ast.Name) and e.id in evars:
+                return pol is False  # no extension found for the value after all: nothing to gate on this edge
+            if registry_test(e, pol) == "loaded":
+                return True
+            return False
+
+        vev = value_gate_eval(ctx, R, vv, cev, switches)
+        if vev is not None and vev[0] == "bad":
+            ctx.violation("E4", vv, "model:value-gate", vev[1], node=vv.node,
+                          witness="`if header :REGEX \"a\" \"b\" {...}` without `require \"regex\"` is accepted (or a loaded one refused)")
+        elif vev is not None:
+            ctx.holds("E4", "%s: %d (slot definition, tag spelling, flag, registry) cases answer as the definition says (extension-bound values in any "
+                      "letter case need their extension unless the caller's flag is off)" % (vv.qualname, vev[1]))
+        _prev_e4 = ctx.demote(["E4"], "the evaluation of the value helper (E4)", keep_keys=("model:", "value-gate-flag")) \
+            if vev is not None and vev[0] == "ok" else None
+        k = 0
+        for r in walk_no_nested(vv.node):
+            if isinstance(r, ast.Return) and r.value is not None and const_value(ctx.program, vv, r.value) is not False:
+                for nd in cfgv.nodes_for(r):
+                    if not cfgv.guarded(nd, ext_found):
+                        continue  # plain `values` branch
+                    k += 1
+                    if cfgv.guarded(nd, gate4):
+                        ctx.holds("E4", "%s: extension-bound value accepted only when loaded" % vv.qualname)
+                    else:
+                        ctx.violation("E4", vv, "value-gate", "an extension-bound tag value is accepted without the registry test", node=r,
+                                      witness="`if header :regex \"a\" \"b\" {...}` without `require \"regex\"` is accepted")
+        ctx.need("E4", "extension-value accept paths", k, 1)
+        if _prev_e4 is not None:
+            ctx.restore(_prev_e4)
+        calls = [c for c in walk_no_nested(cna.node) if isinstance(c, ast.Call) and isinstance(c.func, ast.Attribute)
+                 and c.func.attr == vv.name]
+        ctx.need("E4", "calls of the value helper", len(calls), 2)
+        for c in calls:
+            a = bound_arg(c, vv, cev[0]) if cev else None
+            if isinstance(a, ast.Name) and a.id in ce:
+                ctx.holds("E4", "%s passes %s" % (norm(c)[:60], a.id))
+            else:
+                ctx.violation("E4", cna, "value-gate-flag:%s" % (norm(a) if a is not None else "default"), "the value helper is called with "
+                              "check_extension=%s instead of the caller's flag" % (norm(a) if a is not None else "<default>"), node=c)
 
     # ---- E5 ----------------------------------------------------------------------
     ctx.rule("E5", "no call from parser.py disables the extension checks")
